@@ -164,10 +164,16 @@ func runCheck(repo, prop, tier string) int {
 		tsec = 60
 		allAgree = true
 	}
-	workDir := filepath.Join(root, "work", prop)
+	// VERIF_OUT (development aid, used by tools/seed_run_wt.sh): scratch output directory for runs against a seeded copy of the
+	// repository, so that such a run never overwrites the evidence of the unchanged tree
+	outRoot := root
+	if d := os.Getenv("VERIF_OUT"); d != "" {
+		outRoot = d
+	}
+	workDir := filepath.Join(outRoot, "work", prop)
 	os.RemoveAll(workDir)
 	os.MkdirAll(workDir, 0o755)
-	replayDir := filepath.Join(root, "replays", prop)
+	replayDir := filepath.Join(outRoot, "replays", prop)
 	os.RemoveAll(replayDir)
 
 	kinds := cfg.Kinds
@@ -483,9 +489,9 @@ func runCheck(repo, prop, tier string) int {
 		"property_id": prop, "tier": tier, "seed": seed, "level": level, "coverage": cov, "assumptions": assumptions,
 		"wall_s": round2(time.Since(t0).Seconds()), "violations": violations,
 	}
-	os.MkdirAll(filepath.Join(root, "evidence"), 0o755)
+	os.MkdirAll(filepath.Join(outRoot, "evidence"), 0o755)
 	out, _ := json.MarshalIndent(ev, "", " ")
-	os.WriteFile(filepath.Join(root, "evidence", prop+".json"), out, 0o644)
+	os.WriteFile(filepath.Join(outRoot, "evidence", prop+".json"), out, 0o644)
 	fmt.Printf("%s %s: %d named obligations, %d discharged, %d violations, %d known findings, %d queries, %.1fs solver, %.1fs wall\n",
 		prop, tier, total, discharged, violations, len(knownLines), len(jobs), solverTime, time.Since(t0).Seconds())
 	if total == 0 {
